@@ -27,6 +27,13 @@ def _single_worker_pool(ctx: Ctx, cls, attr: str):
                 for n in ctx.own_nodes(m[-1]):
                     if isinstance(n, ast.Assign) and any(isinstance(t, ast.Attribute) and t.attr == attr and isinstance(t.value, ast.Name) and t.value.id == "self" for t in n.targets):
                         cands.append(n.value)
+    # a named factory (`default_factory=_single_worker_executor`) instead of a lambda: what it returns
+    for v in list(cands):
+        for kw in [k_ for c_ in ast.walk(v) if isinstance(c_, ast.Call) for k_ in c_.keywords if k_.arg == "default_factory"]:
+            if isinstance(kw.value, (ast.Name, ast.Attribute)):
+                d = ctx.prog.resolve_expr(cls.module, kw.value)
+                if d is not None and d.kind == "func":
+                    cands += [r.value for r in ctx.own_nodes(d.obj) if isinstance(r, ast.Return) and r.value is not None]
     pools = [c for v in cands for c in ast.walk(v) if isinstance(c, ast.Call) and norm(c.func).rsplit(".", 1)[-1] == "ThreadPoolExecutor"]
     if len(pools) != 1:
         return None
